@@ -2,7 +2,7 @@
    (every state, every event), and therefore along every trace. *)
 From Utp Require Import Base.Prelude Wire.SeqNr Wire.Header Wire.Header_Proofs Rtt.Rtte Mtu.SegSizes
   Rx.Rx Tx.Ring Tx.Segments Conn.Recovery Conn.Msg Conn.VSockRec Conn.VSock Conn.VSockRun Conn.VObs
-  Conn.VSock_Lemmas Conn.VSock_LemmasFin Conn.C17_Pred Conn.C17_Proofs Conn.C17_StepLemmas.
+  Conn.VSock_Lemmas Conn.VSock_LemmasTx Conn.VSock_LemmasFin Conn.C17_Pred Conn.C17_Proofs Conn.C17_StepLemmas.
 
 Section WithCC.
 Context {CC : Type} (cci : cc_iface CC).
@@ -699,6 +699,252 @@ Proof.
         -- rewrite Hk in E. destruct E as [-> _]. lia.
         -- rewrite Hk in E1. injection E1 as ->. exact Pk.
     + unfold syn_rel in E. rewrite Hk, Es in E. destruct E as [E _]. injection E as ->. exact Pk.
+Qed.
+
+(* ================================================================== c17_fin_after_data_ok *)
+(* every byte of the send buffer is segmented (or the buffer is empty) and every segment was sent *)
+Definition FAD (s : vsock) : Prop :=
+  (Z.of_nat (length (ring (v_tx s))) <= ss_len_bytes (v_segs s) \/ ring (v_tx s) = []) /\
+  (forall g, In g (ss_segs (v_segs s)) -> sg_delivered g = true \/ seg_send_count g <> 0).
+
+Lemma all_sent_of_guard (s : vsock) :
+  unsent_data_exists s = false ->
+  forall g, In g (ss_segs (v_segs s)) -> sg_delivered g = true \/ seg_send_count g <> 0.
+Proof.
+  intros Hu g Hin. unfold unsent_data_exists in Hu. apply orb_false_iff in Hu as (_ & Hu2).
+  destruct (sg_delivered g) eqn:Hd; [left; reflexivity|right].
+  destruct (in_iter_for_sending _ _ Hin Hd) as (f & Hfin & Hg).
+  assert (Hx : (seg_send_count (fs_seg f) =? 0) = false).
+  { destruct (seg_send_count (fs_seg f) =? 0) eqn:E; [|reflexivity].
+    rewrite <- Hu2. symmetry. apply existsb_exists. exists f; split; assumption. }
+  rewrite Hg in Hx. apply Z.eqb_neq in Hx. exact Hx.
+Qed.
+
+(* the steps after the decision to close keep the state, the ring and the segments *)
+Definition keeps3 (s s' : vsock) : Prop :=
+  v_state s' = v_state s /\ ring (v_tx s') = ring (v_tx s) /\ v_segs s' = v_segs s.
+
+Lemma sd_frame_keeps3 (s s' : vsock) : sd_frame s s' -> v_segs s' = v_segs s -> keeps3 s s'.
+Proof.
+  unfold sd_frame, keeps3. intros H Hs. repeat match goal with H : _ /\ _ |- _ => destruct H end.
+  repeat split; congruence.
+Qed.
+
+Lemma send_control_packet_keeps3 (s : vsock) h :
+  match send_control_packet s h with SOk s' _ | SErr s' _ => keeps3 s s' | SPanic => True end.
+Proof.
+  pose proof (VSock_LemmasTx.send_control_packet_spec s h) as H.
+  destruct (send_control_packet s h) as [s' [|]|s' e|]; try exact I.
+  - destruct H as (Hf & _ & Hs & _). apply sd_frame_keeps3; assumption.
+  - destruct H as (Hf & _ & Hs & _). apply sd_frame_keeps3; assumption.
+  - destruct H as (Hf & _ & Hs & _). apply sd_frame_keeps3; assumption.
+Qed.
+
+Lemma maybe_send_fin_keeps3 (s : vsock) :
+  match maybe_send_fin s with SOk s' _ | SErr s' _ => keeps3 s s' | SPanic => True end.
+Proof.
+  pose proof (VSock_LemmasTx.maybe_send_fin_spec s) as H.
+  destruct (maybe_send_fin s) as [s' [|]|s' e|]; try exact I.
+  - destruct H as (seq & _ & _ & Hf & _ & Hs & _). apply sd_frame_keeps3; assumption.
+  - destruct H as (Hf & _ & Hs & _). apply sd_frame_keeps3; assumption.
+  - destruct H as (Hf & _ & Hs & _). apply sd_frame_keeps3; assumption.
+Qed.
+
+Lemma maybe_send_ack_keeps3 (s : vsock) :
+  match maybe_send_ack s with SOk s' _ | SErr s' _ => keeps3 s s' | SPanic => True end.
+Proof.
+  unfold maybe_send_ack, send_ack.
+  destruct (immediate_ack_to_transmit s); [apply send_control_packet_keeps3|].
+  destruct (should_send_window_update s); [apply send_control_packet_keeps3|].
+  destruct (timer_expired _ _).
+  - destruct (ack_to_transmit s); [apply send_control_packet_keeps3|repeat split].
+  - destruct (0 <? _); repeat split.
+Qed.
+
+(* left: nobody entered FinWait1 since the poll_body under consideration started at t;
+   right: the decision to close on own initiative was taken, with everything sent *)
+Definition Jt (t s : vsock) : Prop :=
+  (forall f, v_state s = FinWait1 f -> v_state t = FinWait1 f) \/ FAD s.
+
+Lemma Jt_keeps (t s s' : vsock) : Jt t s -> keeps3 s s' -> Jt t s'.
+Proof.
+  intros [H|[H1 H2]] (K1 & K2 & K3); [left; intros f Hf; apply H; congruence|right].
+  unfold FAD. rewrite K2, K3. split; assumption.
+Qed.
+
+Definition body_tail (s : vsock) : body_res :=
+  pend (maybe_send_fin s) (fun s _ => pend (maybe_send_ack s) (fun s _ => body_finish s)).
+
+Lemma body_back_tail s6 :
+  body_back s6 = body_tail (if should_close_on_own_initiative s6 then transition_to_fin_wait_1 s6 else s6).
+Proof. reflexivity. Qed.
+
+Lemma tail_J (t s7 : vsock) :
+  v_restart s7 = false -> Jt t s7 ->
+  match body_tail s7 with BrReturn s' _ => Jt t s' | BrRestart _ => False | BrPanic => True end.
+Proof.
+  intros R7 J7. unfold body_tail, pend, bail, die.
+  pose proof (maybe_send_fin_keeps3 s7) as K8.
+  destruct (maybe_send_fin s7) as [s8 b8|s8 e8|] eqn:E8; [| |exact I].
+  2:{ eapply Jt_keeps; [exact J7|]. destruct K8 as (K1 & K2 & K3).
+      pose proof (jbd_spec s8 (Some e8)) as J. cbv zeta in J. destruct J as (J1 & J2 & J3 & _).
+      repeat split; congruence. }
+  pose proof (maybe_send_fin_restart _ _ _ E8) as R8. rewrite R7 in R8. rewrite R8.
+  assert (J8 : Jt t s8) by (eapply Jt_keeps; eauto).
+  destruct (v_transport_pending s8); [exact J8|].
+  pose proof (maybe_send_ack_keeps3 s8) as K9.
+  destruct (maybe_send_ack s8) as [s9 b9|s9 e9|] eqn:E9; [| |exact I].
+  2:{ eapply Jt_keeps; [exact J8|]. destruct K9 as (K1 & K2 & K3).
+      pose proof (jbd_spec s9 (Some e9)) as J. cbv zeta in J. destruct J as (J1 & J2 & J3 & _).
+      repeat split; congruence. }
+  pose proof (maybe_send_ack_restart _ _ _ E9) as R9. rewrite R8 in R9. rewrite R9.
+  assert (J9 : Jt t s9) by (eapply Jt_keeps; eauto).
+  destruct (v_transport_pending s9); [exact J9|].
+  unfold body_finish. destruct (state_is_closed _ _).
+  { eapply Jt_keeps; [exact J9|].
+    pose proof (jbd_spec s9 None) as J. cbv zeta in J. destruct J as (J1 & J2 & J3 & _).
+    repeat split; assumption. }
+  match goal with |- context [next_timer_to_poll ?x] => assert (J10 : Jt t x); [|revert J10; generalize x; intros s10 J10] end.
+  { destruct (is_local_fin_or_later (v_state s9)); exact J9. }
+  unfold next_timer_to_poll, arm_in, add_wakes. destruct (v_transport_pending s10).
+  - destruct (v_t_inactivity s10); [|exact J10]. destruct (_ <=? _); exact J10.
+  - match goal with |- Jt t (match ?x with _ => _ end) => destruct x end;
+      [destruct (_ <=? _)|]; exact J10.
+Qed.
+
+Definition is_err_send (r : poll_result) : Prop := r = PollReadyErr ErrSend.
+
+Lemma body_FAD (t : vsock) :
+  match poll_body cci t with
+  | BrReturn s' r =>
+      (forall f, v_state s' = FinWait1 f -> v_state t = FinWait1 f) \/ FAD s' \/
+      (v_inbox_closed t = true /\ r = PollReadyErr ErrSend)
+  | BrRestart s' => G t s'
+  | BrPanic => True
+  end.
+Proof.
+  rewrite poll_body_parts. apply body_front_walk.
+  - intros r He. destruct r as [s' [| |e|]|s'|]; cbn [early] in He; try contradiction; auto.
+    + left. apply He.
+    + destruct He as (s1 & (_ & HW) & ->).
+      pose proof (jbd_spec s1 (Some e)) as J. cbv zeta in J. destruct J as (J1 & _).
+      destruct HW as [HW|(Hc & ->)]; [left|right; right; auto].
+      intros f Hf. apply HW. congruence.
+  - intros s4 s5 s6 F4 E5 E6 F6 R6 T6. rewrite body_back_tail.
+    assert (G46 : G s4 s6).
+    { pose proof (split_G cci s4) as A. rewrite E5 in A. pose proof (send_tx_queue_G cci s5) as B. rewrite E6 in B.
+      eapply G_trans; eauto. }
+    assert (J7 : Jt t (if should_close_on_own_initiative s6 then transition_to_fin_wait_1 s6 else s6)).
+    { destruct (should_close_on_own_initiative s6) eqn:Hc; [right|left; apply F6].
+      assert (HF : FAD s6).
+      { destruct (should_close_guard s6 Hc) as (_ & Hu & Hl). split; [|apply all_sent_of_guard; exact Hu].
+        destruct (ring (v_tx s4)) as [|b0 rest] eqn:Er.
+        - right. rewrite (split_empty_ring cci s4 Er) in E5. injection E5 as <-.
+          pose proof (send_tx_queue_uframe cci (set_tx s4 (register_dispatcher_if_empty (v_tx s4)))) as U.
+          rewrite E6 in U. cbn [sufr_r] in U. destruct U as [(_ & U2 & _)|U]; [|congruence].
+          rewrite U2. vsimpl. unfold register_dispatcher_if_empty. rewrite Er. cbn [ring upd]. reflexivity.
+        - left. eapply (fin_after_all_data_in_poll cci s4 s5 s6); eauto; [|rewrite Er; discriminate].
+          destruct G46 as ((Hst & _) & _).
+          destruct (v_state s4), (v_state s6); cbn [st_rel is_local_fin_or_later is_remote_fin_or_later] in *;
+            try reflexivity; try discriminate; contradiction. }
+      unfold transition_to_fin_wait_1. destruct (v_state s6); exact HF. }
+    assert (R7 : v_restart (if should_close_on_own_initiative s6 then transition_to_fin_wait_1 s6 else s6) = false).
+    { destruct (should_close_on_own_initiative s6); [rewrite transition_to_fin_wait_1_restart|]; exact R6. }
+    pose proof (tail_J t _ R7 J7) as H.
+    destruct (body_tail _) as [s' r|s'|]; [|contradiction|exact I].
+    destruct H as [H|H]; auto.
+Qed.
+
+Theorem poll_FAD (s s' : vsock) r :
+  poll cci s = (s', r) ->
+  forall f, v_state s' = FinWait1 f ->
+    v_state s = FinWait1 f \/ FAD s' \/ (v_inbox_closed s = true /\ r = PollReadyErr ErrSend).
+Proof.
+  intro E. rewrite poll_unfold in E.
+  pose proof (poll_loop_ind cci
+    (fun t => (forall f, v_state t = FinWait1 f -> v_state s = FinWait1 f) /\ v_inbox_closed t = v_inbox_closed s)
+    (fun s' r => forall f, v_state s' = FinWait1 f ->
+       v_state s = FinWait1 f \/ FAD s' \/ (v_inbox_closed s = true /\ r = PollReadyErr ErrSend))) as H.
+  specialize (H ltac:(intros t [Ht _] f Hf; left; auto)).
+  assert (Hb : forall t, (forall f, v_state t = FinWait1 f -> v_state s = FinWait1 f) /\
+                         v_inbox_closed t = v_inbox_closed s ->
+     match poll_body cci t with
+     | BrReturn s'0 r0 => forall f, v_state s'0 = FinWait1 f ->
+         v_state s = FinWait1 f \/ FAD s'0 \/ (v_inbox_closed s = true /\ r0 = PollReadyErr ErrSend)
+     | BrRestart s'0 => (forall f, v_state s'0 = FinWait1 f -> v_state s = FinWait1 f) /\
+                        v_inbox_closed s'0 = v_inbox_closed s
+     | BrPanic => True
+     end).
+  { intros t [Ht Hc]. pose proof (body_FAD t) as B. destruct (poll_body cci t) as [s1 r1|s1|]; [| |exact I].
+    - intros f Hf. destruct B as [B|[B|(B1 & B2)]]; [left; auto|right; left; exact B|].
+      right; right. split; [congruence|exact B2].
+    - destruct B as ((_ & _ & _ & B4) & BW). split; [intros f Hf; auto|congruence]. }
+  specialize (H Hb 64%nat (poll_init s)). rewrite E in H. apply H. split; [auto|reflexivity].
+Qed.
+
+(* assumed-and-monitored on the fingerprint after the step: the segmented bytes are within the buffer *)
+Definition c17_seg_bounds (fp : vfp) : bool :=
+  (0 <=? f_seg_len_bytes fp) && (f_seg_len_bytes fp <=? f_tx_len fp).
+
+(* the step does not report a transport error *)
+Definition c17_not_err_send (r : fresult) : bool :=
+  match r with FrPoll (PollReadyErr ErrSend) _ _ _ => false | _ => true end.
+
+Lemma FAD_bool (s' : vsock) :
+  FAD s' -> c17_seg_bounds (fp_of_vsock cci s') = true ->
+  (f_tx_len (fp_of_vsock cci s') =? f_seg_len_bytes (fp_of_vsock cci s')) &&
+  forallb (fun g => negb (fg_sent_kind g =? 0) || fg_delivered g) (f_segs (fp_of_vsock cci s')) = true.
+Proof.
+  intros [H1 H2] Hb. unfold c17_seg_bounds in Hb. cbn [fp_of_vsock f_tx_len f_seg_len_bytes f_segs] in *.
+  apply andb_true_iff in Hb as (Hb1 & Hb2). apply Z.leb_le in Hb1, Hb2.
+  apply andb_true_intro. split.
+  - apply Z.eqb_eq. destruct H1 as [H1|H1]; [lia|]. rewrite H1 in *. cbn [length Z.of_nat] in *. lia.
+  - apply forallb_forall. intros x Hx. apply in_map_iff in Hx. destruct Hx as (g & <- & Hg).
+    unfold fseg_of. cbn [fg_sent_kind fg_delivered].
+    destruct (H2 g Hg) as [Hd|Hc]; [rewrite Hd; apply orb_true_r|].
+    unfold seg_send_count in Hc. destruct (sg_sent g); [contradiction|reflexivity|reflexivity].
+Qed.
+
+(* general form: the predicate holds unless the channel was closed AND the poll reports a transport error *)
+Theorem c17_fin_after_data_ok_step_gen : forall cfg (s : vsock) o,
+  c17_seg_bounds (fs_post (fstep_of cci s o)) = true ->
+  v_inbox_closed s = false \/ c17_not_err_send (fs_result (fstep_of cci s o)) = true ->
+  c17_fin_after_data_ok cfg (fstep_of cci s o) = true.
+Proof.
+  intros cfg s o. destruct o;
+    try (intros _ _; unfold c17_fin_after_data_ok; rewrite fstep_of_event; reflexivity).
+  destruct (poll cci (VSockRec.set_sends s script)) as [s' r] eqn:E.
+  rewrite (fstep_of_poll cci s script s' r E). unfold c17_fin_after_data_ok.
+  cbn [fs_event fs_result fs_pre fs_post]. intros Hb Hg.
+  destruct (f_state (fp_of_vsock cci s')) as [| | |f| | |] eqn:Es'; try reflexivity.
+  cbn [fp_of_vsock f_state] in Es'.
+  destruct (pre_local_fin (f_state (fp_of_vsock cci s))) eqn:Epre; [reflexivity|].
+  cbn [fp_of_vsock f_state] in Epre. unfold pre_local_fin in Epre.
+  destruct (poll_FAD _ _ _ E f Es') as [H|[H|(H1 & H2)]].
+  - change (v_state (VSockRec.set_sends s script)) with (v_state s) in H. rewrite H in Epre. discriminate.
+  - apply FAD_bool; assumption.
+  - exfalso. change (v_inbox_closed (VSockRec.set_sends s script)) with (v_inbox_closed s) in H1.
+    destruct Hg as [Hg|Hg]; [congruence|]. rewrite H2 in Hg. discriminate.
+Qed.
+
+Theorem c17_fin_after_data_ok_step_open : forall cfg (s : vsock) o,
+  v_inbox_closed s = false -> c17_seg_bounds (fs_post (fstep_of cci s o)) = true ->
+  c17_fin_after_data_ok cfg (fstep_of cci s o) = true.
+Proof. intros cfg s o H1 H2. apply c17_fin_after_data_ok_step_gen; auto. Qed.
+
+(* the guard evaluated on the step alone *)
+Definition c17_fin_after_data_guard (st : fstep) : bool :=
+  c17_seg_bounds (fs_post st) && c17_not_err_send (fs_result st).
+
+Definition c17_fin_after_data_guarded (cfg : vconfig) (st : fstep) : bool :=
+  if c17_fin_after_data_guard st then c17_fin_after_data_ok cfg st else true.
+
+Theorem c17_fin_after_data_guarded_step : forall cfg (s : vsock) o,
+  c17_fin_after_data_guarded cfg (fstep_of cci s o) = true.
+Proof.
+  intros cfg s o. unfold c17_fin_after_data_guarded, c17_fin_after_data_guard.
+  destruct (c17_seg_bounds _) eqn:E1; [|reflexivity]. destruct (c17_not_err_send _) eqn:E2; [|reflexivity].
+  cbn [andb]. apply c17_fin_after_data_ok_step_gen; auto.
 Qed.
 
 (* ================================================================== along every trace *)
